@@ -1,6 +1,13 @@
 """C02 - a file is a growable byte array with a cursor: every read/write/seek/truncate outcome is checked by the
 extracted byte-array machine (the file part of Spec/Tree.v), offsets and lengths concentrated on cluster boundaries,
-several files open and modified in interleaved order, all cluster sizes and FAT widths."""
+several files open and modified in interleaved order, all cluster sizes and FAT widths.
+
+Second stream (correspondence of Model/FileM.v, the model the C02 theorems are about): histories over 1-3 new files
+on a freshly formatted FAT12/FAT16 volume (nothing else allocates, so the allocation sequence is deterministic),
+replayed on the extracted model over the pure FAT store with all handles sharing one world (model runner mode c02).  Compared per operation: returned count / data / position / error, the position, and the
+file's extents (cluster list and sizes) against the model's extents and FAT chain; at the end the cached free count
+and the content read back through a fresh handle.  The same histories are also checked directly against a
+byte-array-with-cursor oracle written here from the property text (independent of the model)."""
 import vlib, sessions
 from vlib import hexs
 from props import sess_common as sc
@@ -32,8 +39,258 @@ def file_session(rng, conf, nops):
         g.emit("flush %d" % h); g.emit("seek %d start 0" % h); g.emit("read_all %d 100000" % h); g.emit("extents %d" % h)
     return head + g.lines
 
+# ------------------------------------------------------------------ histories against Model/FileM.v
+ONEFILE_CONFS = [
+    # (label, device bytes, format line)   FAT12/16: format allocates nothing in the data area
+    ("fat16-c512", 4400 * 512, "format 512 4400 512 16 32 2 - - -"),
+    ("fat12-tiny-c512", 64 * 512, "format 512 64 512 12 16 2 - - -"),
+    ("fat16-c2k", 18000 * 512, "format 512 18000 2048 16 512 1 - - -"),
+    ("fat12-c2k", 2000 * 512, "format 512 2000 2048 12 512 2 - - -"),
+    ("fat12-c4k", 200 * 4096, "format 4096 200 4096 - 128 2 - - -"),
+    ("fat12-c1k", 600 * 1024, "format 1024 600 1024 12 32 2 - - -"),
+]
+I64_MAX = (1 << 63) - 1
+
+def model_history(rng, cs, total, nops, fill, nfiles):
+    """[(file index, model-format op line)]; the estimates (pos, size) only steer the choice of interesting values"""
+    ops = []; pos = [0] * nfiles; size = [0] * nfiles
+    def near():
+        k = rng.below(5)
+        return max(0, k * cs + rng.choice([-2, -1, 0, 0, 1, 2]))
+    def wr(f, n):
+        b = rng.below(256)
+        data = bytes((b + i * 7) % 256 for i in range(n))
+        ops.append((f, "write " + (data.hex() if n else "-")))
+        k = min(n, cs - pos[f] % cs); pos[f] += k; size[f] = max(size[f], pos[f])
+    if fill:
+        # run the volume out of space: every write call fills at most one cluster
+        for i in range(total + 2):
+            wr(rng.below(nfiles), cs if rng.chance(4, 5) else cs + 5)
+    target = nops + len(ops)
+    while len(ops) < target:
+        f = rng.below(nfiles); c = rng.below(100)
+        if c < 34:
+            wr(f, rng.choice([0, 1, cs - 1, cs, cs + 1, 2 * cs + 1, near(), rng.range(1, 3 * cs),
+                              max(0, cs - pos[f] % cs + rng.choice([-1, 0, 1]))]))
+        elif c < 58:
+            n = rng.choice([0, 1, cs - 1, cs, cs + 1, near(), rng.range(1, 3 * cs), max(0, size[f] - pos[f] + rng.choice([-1, 0, 1])),
+                            max(0, cs - pos[f] % cs + rng.choice([-1, 0, 1]))])
+            ops.append((f, "read %d" % n))
+            pos[f] += min(n, cs - pos[f] % cs, max(0, size[f] - pos[f]))
+        elif c < 92:
+            wh = rng.choice(["start", "start", "end", "cur"])
+            if wh == "start":
+                x = rng.choice([0, near(), near(), size[f], size[f] + 1, max(0, size[f] - 1), rng.range(0, size[f] + 1), 1 << 32,
+                                (1 << 32) + 5, (1 << 32) - 1, (1 << 64) - 1, I64_MAX])
+                t = x
+            elif wh == "end":
+                x = rng.choice([0, -1, 1, -size[f], -size[f] - 1, -rng.range(0, size[f] + 1), -near(), near(), I64_MAX, -I64_MAX - 1,
+                                -(1 << 32)])
+                t = size[f] + x
+            else:
+                x = rng.choice([0, -1, 1, -pos[f], -pos[f] - 1, size[f] - pos[f], size[f] - pos[f] + 1, -rng.range(0, pos[f] + 1),
+                                near() - pos[f], cs, -cs, I64_MAX, -I64_MAX - 1, 1 << 32])
+                t = pos[f] + x
+            ops.append((f, "seek %s %d" % (wh, x)))
+            if t >= 0:
+                pos[f] = min(t, size[f])
+        else:
+            ops.append((f, "truncate")); size[f] = pos[f]
+    return ops
+
+def model_script(conf, ops, cached, nfiles):
+    """executor script: file i is handle i+1; after every op the position and the extents of the file are queried"""
+    label, devsize, fmt = conf
+    sc_ = ["dev %d 0" % devsize, "wlog 0", fmt, "mount 1 0 lossy", "dump 0 64", "stats"]
+    # without "cached" the stats call happens on a throw-away mount so that the session starts without a cached count
+    if not cached:
+        sc_ += ["unmount", "mount 1 0 lossy"]
+    for i in range(nfiles):
+        sc_.append("create_file 0 %s %d" % (hexs("f%d.bin" % i), i + 1))
+    idx = []
+    for f, o in ops:
+        t = o.split(" ")
+        idx.append(len(sc_))
+        sc_.append("%s %d" % (t[0], f + 1) + ("" if len(t) == 1 else " " + " ".join(t[1:])))
+        sc_.append("seek %d cur 0" % (f + 1)); sc_.append("extents %d" % (f + 1))
+    tail = len(sc_)
+    sc_.append("stats")
+    for i in range(nfiles):
+        sc_ += ["flush %d" % (i + 1), "drop_file %d" % (i + 1), "open_file 0 %s %d" % (hexs("f%d.bin" % i), 10 + i),
+                "read_all %d 2000000" % (10 + i), "extents %d" % (10 + i)]
+    return sc_, idx, tail
+
+def bpb_data_start(hex64):
+    b = bytes.fromhex(hex64)
+    bps = b[11] | b[12] << 8; spc = b[13]; rsv = b[14] | b[15] << 8; fats = b[16]; root = b[17] | b[18] << 8
+    spf = b[22] | b[23] << 8
+    return (rsv + fats * spf + (root * 32 + bps - 1) // bps) * bps, bps * spc
+
+def clusters_of(ext_payload, data_start, cs):
+    out = []
+    for e in ext_payload.split():
+        off, sz = e.split(":")
+        out.append(((int(off) - data_start) // cs + 2, int(sz)))
+    return out
+
+def model_stream(rep, tier, rng):
+    n = 72 if tier == "quick" else 1800
+    nops = 40 if tier == "quick" else 90
+    items = []
+    for i in range(n):
+        conf = ONEFILE_CONFS[i % len(ONEFILE_CONFS)]
+        fill = conf[0] == "fat12-tiny-c512" and rng.chance(1, 2)
+        nfiles = 1 if i % 3 == 0 else rng.range(2, 3)
+        items.append((conf, fill, rng.chance(1, 2), nfiles))
+    # geometry of each configuration from the real library (cluster size, total clusters)
+    geo = {}
+    for conf in ONEFILE_CONFS:
+        r = vlib.run_scripts([["dev %d 0" % conf[1], "wlog 0", conf[2], "mount 1 0 lossy", "stats"]])[0]
+        csz, tot, free = [int(x) for x in r[-1].payload.split()]
+        geo[conf[0]] = (csz, tot)
+        if free != tot:
+            rep.violation("[C02 model] fresh %s volume is not empty: %d of %d clusters free" % (conf[0], free, tot),
+                          {"script": [o.line for o in r]})
+    hist = [model_history(rng, geo[conf[0]][0], geo[conf[0]][1], nops, fill, nf) for conf, fill, cached, nf in items]
+    scripts = [model_script(conf, ops, cached, nf) for (conf, fill, cached, nf), ops in zip(items, hist)]
+    results = []
+    shard = 50
+    for i in range(0, len(scripts), shard):
+        results += vlib.run_scripts([s[0] for s in scripts[i:i + shard]])
+    mtext = []
+    for (conf, fill, cached, nf), ops in zip(items, hist):
+        csz, tot = geo[conf[0]]
+        mtext.append("new %d %d" % (csz, tot))
+        if cached:
+            mtext.append("stats")
+        for f, o in ops:
+            mtext.append("use %d" % f); mtext.append(o); mtext.append("extents")
+    mout = vlib.model_run("c02", "\n".join(mtext) + "\n")
+    mi = 0
+    dist = {"ops": {}, "outcomes": {}, "alloc": 0, "boundary_ops": 0, "enospc": 0, "files": {}}
+    for (conf, fill, cached, nf), ops, (scr, idx, tail), res in zip(items, hist, scripts, results):
+        rep.count()
+        dist["files"][nf] = dist["files"].get(nf, 0) + 1
+        csz, tot = geo[conf[0]]
+        bad = False
+        def viol(text, upto, nofail=False):
+            nonlocal bad
+            bad = True
+            rep.violation("[C02 model %s] %s" % (conf[0], text),
+                          {"script": scr[:upto + 3], "theorem_or_correspondence": "Model/FileM.v vs src/file.rs (m_c02)"} if nofail
+                          else {"script": scr[:upto + 3]}, nofail=nofail)
+        mi += 1 + (1 if cached else 0)            # "new", "stats"
+        dump = [r for r in res if r.line.startswith("dump ")][0]
+        data_start, cs2 = bpb_data_start(dump.payload.split()[-1])
+        if cs2 != csz:
+            viol("cluster size of the boot sector %d differs from stats %d" % (cs2, csz), 6)
+        content = [bytearray() for _ in range(nf)]; pos = [0] * nf       # the byte-array-with-cursor oracle of the property text
+        chains = [[] for _ in range(nf)]
+        mfree = "-"
+        for k, (f, o) in enumerate(ops):
+            r = res[idx[k]]; rp = res[idx[k] + 1]; rx = res[idx[k] + 2]
+            mres, mstate = [x.strip() for x in mout[mi + 1].split("|")]; mext = mout[mi + 2].split("|")[0].strip()
+            mi += 3
+            if bad:
+                continue
+            t = o.split(" ")
+            dist["ops"][t[0]] = dist["ops"].get(t[0], 0) + 1
+            oc = t[0] + ":" + (r.kind if r.kind != "err" else "err " + r.payload)
+            dist["outcomes"][oc] = dist["outcomes"].get(oc, 0) + 1
+            if r.kind not in ("ok", "err"):
+                viol("%s -> %s %s" % (o[:60], r.kind, r.payload[:80]), idx[k]); continue
+            cont = content[f]; p0 = pos[f]
+            # ---- direct check against the property text
+            if p0 % csz in (0, 1, csz - 1):
+                dist["boundary_ops"] += 1
+            if t[0] == "read":
+                nreq = int(t[1]); avail = min(nreq, len(cont) - p0)
+                data = b"" if (not r.ok or r.payload in ("", "-")) else bytes.fromhex(r.payload)
+                if not r.ok or len(data) > avail or (len(data) == 0 and avail > 0) or data != bytes(cont[p0:p0 + len(data)]):
+                    viol("read %d at %d of %d: got %s %d bytes, expected a non-empty prefix of the %d available bytes" %
+                         (nreq, p0, len(cont), r.kind, len(data), avail), idx[k]); continue
+                pos[f] += len(data)
+            elif t[0] == "write":
+                data = b"" if t[1] == "-" else bytes.fromhex(t[1])
+                if r.ok:
+                    kk = int(r.payload)
+                    if kk > len(data) or (kk == 0 and len(data) > 0):
+                        viol("write of %d bytes at %d returned %d" % (len(data), p0, kk), idx[k]); continue
+                    if p0 + kk > len(cont):
+                        cont.extend(b"\0" * (p0 + kk - len(cont)))
+                    cont[p0:p0 + kk] = data[:kk]; pos[f] += kk
+                elif r.payload.split(" ")[0] == "NotEnoughSpace":
+                    dist["enospc"] += 1
+                    if sum(len(c) for c in chains) < tot:
+                        viol("write reported NotEnoughSpace with %d of %d clusters in use" % (sum(len(c) for c in chains), tot), idx[k]); continue
+                else:
+                    viol("write failed with %s" % r.payload, idx[k]); continue
+            elif t[0] == "seek":
+                base = {"start": 0, "end": len(cont), "cur": p0}[t[1]]
+                tg = base + int(t[2])
+                if tg < 0:
+                    if r.ok or r.payload.split(" ")[0] != "InvalidInput":
+                        viol("seek %s %s at %d of %d (negative target): %s %s" % (t[1], t[2], p0, len(cont), r.kind, r.payload), idx[k]); continue
+                else:
+                    if not r.ok or int(r.payload) != min(tg, len(cont)):
+                        viol("seek %s %s at %d of %d: %s %s, expected %d" % (t[1], t[2], p0, len(cont), r.kind, r.payload, min(tg, len(cont))), idx[k]); continue
+                    pos[f] = min(tg, len(cont))
+            else:
+                if not r.ok:
+                    viol("truncate failed: %s" % r.payload, idx[k]); continue
+                del cont[p0:]
+            if not rp.ok or int(rp.payload) != pos[f]:
+                viol("position after '%s' is %s, expected %d" % (o[:40], rp.payload, pos[f]), idx[k] + 1); continue
+            ex = clusters_of(rx.payload, data_start, csz) if rx.ok else None
+            if ex is None or sum(s for _, s in ex) != len(cont) or any(s != min(csz, len(cont) - i * csz) for i, (_, s) in enumerate(ex)) \
+               or len(set(c for c, _ in ex)) != len(ex) or any(not (2 <= c < tot + 2) for c, _ in ex):
+                viol("extents after '%s' do not describe a %d byte file: %s" % (o[:40], len(cont), rx.payload[:120]), idx[k] + 2); continue
+            if len(ex) > len(chains[f]):
+                dist["alloc"] += 1
+            chains[f] = [c for c, _ in ex]
+            allc = [c for ch in chains for c in ch]
+            if len(set(allc)) != len(allc):
+                viol("two open files share a cluster after '%s': %s" % (o[:40], chains), idx[k] + 2); continue
+            # ---- correspondence with the model
+            want = r.kind + ((" " + r.payload.split(" ")[0]) if r.payload else "")
+            if t[0] == "read":
+                want = r.kind + " " + (r.payload if r.payload else "-")
+            if mres != want:
+                viol("model and library disagree on '%s': model '%s', library '%s'" % (o[:40], mres[:80], want[:80]), idx[k], nofail=True); continue
+            ms = mstate.split(" ")
+            if int(ms[0]) != pos[f] or int(ms[1]) != len(cont):
+                viol("model position/size %s/%s after '%s', library %d/%d" % (ms[0], ms[1], o[:40], pos[f], len(cont)), idx[k], nofail=True); continue
+            mex = [(int(a), int(b)) for a, b in (e.split(":") for e in mext.split()[1:])] if mext.startswith("ok") else None
+            mchain = [] if ms[4] == "-" else [int(x) for x in ms[4].split(",")]
+            if mex != ex or mchain != chains[f]:
+                viol("cluster chain after '%s': model extents %s chain %s, library %s" % (o[:40], mex, mchain, ex), idx[k], nofail=True); continue
+            mfree = ms[5]
+        if bad:
+            continue
+        # ---- end of history: free count, persistence through fresh handles
+        used = sum(len(c) for c in chains)
+        st = res[tail]
+        if not st.ok or int(st.payload.split()[2]) != tot - used:
+            viol("free clusters at the end: %s, expected %d" % (st.payload, tot - used), tail)
+        if cached and ops and mfree != str(tot - used):
+            viol("model cached free count %s, expected %d" % (mfree, tot - used), tail, nofail=True)
+        for i in range(nf):
+            ra = res[tail + 1 + 5 * i + 3]; rx = res[tail + 1 + 5 * i + 4]
+            back = b"" if ra.payload in ("", "-") else bytes.fromhex(ra.payload)
+            if not ra.ok or back != bytes(content[i]):
+                viol("content of file %d read back through a fresh handle differs (%d bytes, expected %d)" % (i, len(back), len(content[i])), tail + 1 + 5 * i + 3)
+            elif not rx.ok or [c for c, _ in clusters_of(rx.payload, data_start, csz)] != chains[i]:
+                viol("extents of file %d through a fresh handle differ" % i, tail + 1 + 5 * i + 4)
+        if not bad:
+            rep.distinct(("model", conf[0], nf, tuple(ops)))
+    rep.cov["model_histories"] = len(items)
+    rep.cov["model_distribution"] = dist
+    rep.sample({"model_config": ONEFILE_CONFS[0][2], "ops": [sc.short("%d: %s" % fo, 60) for fo in hist[0][:10]]})
+
+
 def run(rep, tier, seed):
     rng = vlib.Rng(seed)
+    model_stream(rep, tier, vlib.Rng(seed * 7919 + 2))
     confs = sessions.configs(tier)
     n = 80 if tier == "quick" else 1500
     scripts = []
